@@ -691,7 +691,7 @@ func checkLocationEvaluator(c *Ctx, gsq, ev *ssa.Function) {
 				stt, why = broken, "on the Complement branch a value is returned without ReverseComplement: "+short(p.t.String())
 			}
 			// a data value handed back on a path that never looks at the strand flag (a fast path in front of it)
-			if !pos && !neg && stt == holds && p.t.Op != "const" && p.cond != nil && p.cond.Op != "true" && len(opaqueParts(p.t, nil)) == 0 {
+			if !pos && !neg && stt == holds && p.t.Op != "const" && p.cond != nil && p.cond.Op != "true" && (len(opaqueParts(p.t, nil)) == 0 || p.t.isCall(fname(ev)) && !p.t.contains(func(x *Term) bool { return x.isField("Complement") })) {
 				flagFree := true
 				for _, at := range p.cond.atoms() {
 					if at.Atom.contains(func(x *Term) bool { return x.isField("Complement") }) {
